@@ -202,14 +202,17 @@ func c12Envelope(c *mc.Ctx, k c12Env, withStream bool) {
 				if len(name) == 0 {
 					return name
 				}
+				i /= 2 // consecutive headers share a name in pairs and differ in type and sequence id
 				b := []byte(name[i%len(name):] + name[:i%len(name)])
 				b[0] = byte('A' + i)
 				return string(b)
 			}
+			// ... so that nothing keyed by the method name alone may be reused for the next header
+			typeOf := func(i int) thrift.TMessageType { return k.Type ^ thrift.TMessageType(i&1) ^ thrift.TMessageType(i&4)>>1 }
 			for i := 0; i < 13; i++ {
-				lbw.WriteMessageBegin(nameOf(i), k.Type, k.Seq+int32(i))
+				lbw.WriteMessageBegin(nameOf(i), typeOf(i), k.Seq+int32(i))
 				ldw.Flush()
-				all = ref.MessageBegin(all, nameOf(i), k.Type, k.Seq+int32(i))
+				all = ref.MessageBegin(all, nameOf(i), typeOf(i), k.Seq+int32(i))
 			}
 			lbw.Recycle()
 			if !bytes.Equal(lsink.Got, all) {
@@ -221,7 +224,7 @@ func c12Envelope(c *mc.Ctx, k c12Env, withStream bool) {
 			var names [13]string
 			for i := 0; i < 13; i++ {
 				gn, gt, gs, err := lbr.ReadMessageBegin()
-				if err != nil || gn != nameOf(i) || gt != k.Type&0xffff || gs != k.Seq+int32(i) {
+				if err != nil || gn != nameOf(i) || gt != typeOf(i)&0xffff || gs != k.Seq+int32(i) {
 					bad("long-lived-reader", "header %d of 13 read through one buffered reader (Release after each): (name eq=%v, type %d, seq %d, %v)", i+1, gn == nameOf(i), gt, gs, err)
 					return
 				}
